@@ -38,7 +38,9 @@ COQ_KIND = {'rmcp': 'KRmcpOriginal' if os.environ.get('C04_MODEL_ORIGINAL') else
             'ipmbdev': 'KIpmbDev', 'aardvark': 'KAardvark'}
 F4_KEY = 'Rmcp._send_and_receive:unmatched-frame-requeued'
 SYM_NAMES = ['match', 'stale-seq', 'other-cmd', 'other-netfn', 'other-lun', 'bad-hdr-csum', 'bad-payload-csum',
-             'bridge-ack', 'short', 'timeout', 'oserror', 'bridged-match', 'bridge-cc-error']
+             'bridge-ack', 'short', 'timeout', 'oserror', 'bridged-match', 'bridge-cc-error',
+             'echoed-request', 'request-netfn', 'netfn-bit1', 'netfn-bit2', 'netfn-bit3', 'netfn-bit4', 'netfn-bit5']
+NSYM = len(SYM_NAMES)
 
 
 def nl(xs):
@@ -66,8 +68,18 @@ def bump(f, i):
     return bytes(f)
 
 
-def sym_event(h, k):
-    """h = [rs_sa, rs_lun, rq_sa, rq_lun, rq_seq, netfn, cmd] of the request"""
+def reply_frame_nf(h, nf, data):
+    """reply layout with an arbitrary network function value"""
+    rs_sa, rs_lun, rq_sa, rq_lun, seq, netfn, cmd = h
+    a = [rq_sa, ((nf << 2) | rq_lun) % 256]
+    a.append(csum(a))
+    b = [rs_sa, (seq << 2) | rs_lun, cmd] + list(data)
+    b.append(csum(b))
+    return bytes(a + b)
+
+
+def sym_event(h, k, p=b''):
+    """h = [rs_sa, rs_lun, rq_sa, rq_lun, rq_seq, netfn, cmd] of the request, p its data"""
     d = bytes([0, 160 + k])
     rs_sa, rs_lun, rq_sa, rq_lun, seq, netfn, cmd = h
     if k == 0:
@@ -94,7 +106,13 @@ def sym_event(h, k):
         return ('E',)
     if k == 11:
         return ('F', spec_wrap_reply([rq_sa, 0, 0x20, 0, seq], 0, spec_reply_frame(h, d)))
-    return ('F', spec_wrap_reply([rq_sa, 0, 0x20, 0, seq], 0xc3, b''))
+    if k == 12:
+        return ('F', spec_wrap_reply([rq_sa, 0, 0x20, 0, seq], 0xc3, b''))
+    if k == 13:   # the request itself, echoed / looped back
+        return ('F', spec_request_frame(rs_sa, rs_lun, rq_sa, rq_lun, seq, netfn, cmd, p))
+    if k == 14:   # everything matches, but the network function is the REQUEST's (bit 0 clear)
+        return ('F', reply_frame_nf(h, netfn, d))
+    return ('F', reply_frame_nf(h, (netfn | 1) ^ (1 << (k - 14)), d))      # 15..19: one netfn bit flipped
 
 
 # ---------------------------------------------------------------------------
@@ -228,6 +246,7 @@ def run_sequence(inp):
         for f in queue0:
             intf._q.put(f)
     recs = []
+    targets = {}      # one Target object per (address, routing) for the whole history
     for j, r in enumerate(inp['reqs']):
         events = [tuple([e[0]] + ([bytes.fromhex(e[1])] if e[0] == 'F' else [])) for e in r['events']]
         carry = script.unread()
@@ -236,7 +255,7 @@ def run_sequence(inp):
         U.clear_sent(kind, intf)
         q_before = U.rmcp_queue(intf) if kind == 'rmcp' else []
         result = U.call(intf, r['rq'][0], r.get('routing') or None, r['rq'][1], r['rq'][2], r['rq'][3],
-                        bytes.fromhex(r['p']))
+                        bytes.fromhex(r['p']), targets=targets)
         consumed = pending[:len(pending) - script.unread()]
         recs.append({'result': result, 'sent': U.sent_of(kind, intf),
                      'qlen': len(U.rmcp_queue(intf)) if kind == 'rmcp' else 0,
@@ -303,11 +322,11 @@ def replay(data):
 def out_code(r):
     if isinstance(r, Exception):
         n = C.exc_class(r)
-        return {'RetryError': 17, 'TimeoutError': 18, 'DecodingError': 19}.get(n, 20 if n.startswith('CCError') else 21)
+        return {'RetryError': 33, 'TimeoutError': 34, 'DecodingError': 35}.get(n, 36 if n.startswith('CCError') else 37)
     r = bytes(r)
-    if len(r) == 2 and r[0] == 0 and 160 <= r[1] < 176:
+    if len(r) == 2 and r[0] == 0 and 160 <= r[1] < 192:
         return r[1] - 160
-    return 16
+    return 32
 
 
 def _sweep_shard(job):
@@ -331,7 +350,7 @@ def _sweep_shard(job):
         rq = [rng.choice([0x20, 0x72, 0x82, rng.randrange(256)]), rng.randrange(4), rng.randrange(0, 64, 2), cmd]
         seq = (seq0 + 1) % 64
         h = request_header(kind, slave, seq, rq, None)
-        evs = {k: sym_event(h, k) for k in alpha}
+        evs = {k: sym_event(h, k, payload) for k in alpha}
         codes = []
         tx = None
         for t in itertools.product(alpha, repeat=n):
@@ -383,7 +402,7 @@ def sweep_jobs(rng, alpha, maxlen, budgets=(0, 1, 2, 3), tail=3):
 
 
 # ---------------------------------------------------------------------------
-def rand_events(rng, h, hist, n, alpha):
+def rand_events(rng, h, hist, n, alpha, p=b''):
     """n events for a request with header h; hist = headers of earlier requests (their
     replies arrive late)"""
     ev = []
@@ -391,7 +410,7 @@ def rand_events(rng, h, hist, n, alpha):
         if hist and rng.random() < 0.25:
             ev.append(sym_event(rng.choice(hist), rng.choice([0, 0, 11, 7])))
         else:
-            ev.append(sym_event(h, rng.choice(alpha)))
+            ev.append(sym_event(h, rng.choice(alpha), p))
     return ev
 
 
@@ -415,15 +434,16 @@ def run(ctx):
     for _ in range(12):
         h = [rng.randrange(256), rng.randrange(4), rng.randrange(256), 0, rng.randrange(64), rng.randrange(0, 64, 2),
              rng.randrange(256)]
-        for k in range(13):
-            e = sym_event(h, k)
-            add('chk_sym %s %d %s' % (nl(h), k, C.c_opt(C.c_hex(e[1]) if e[0] == 'F' else None)), ('sym', h, k))
+        pl = bytes(rng.randrange(256) for _ in range(rng.randrange(0, 4)))
+        for k in range(NSYM):
+            e = sym_event(h, k, pl)
+            add('chk_sym %s %s %d %s' % (nl(h), C.c_hex(pl), k, C.c_opt(C.c_hex(e[1]) if e[0] == 'F' else None)), ('sym', h, k))
 
     # ---- exhaustive orderings
     alpha10 = list(range(10))
     jobs = sweep_jobs(rng, alpha10, 5 if q else 6)
     # extended alphabet (OS error, bridged reply, failing bridge response), shorter words
-    jobs += sweep_jobs(rng, list(range(13)), 3 if q else 4)
+    jobs += sweep_jobs(rng, list(range(NSYM)), 3 if q else 4, tail=2)
     if not q:
         # length 7 over the sub-alphabet that distinguishes the loop's behaviours, full budget range
         jobs += [j for j in sweep_jobs(rng, [0, 1, 5, 7, 8, 9], 7) if len(j[2]) + j[3] == 7]
@@ -453,7 +473,7 @@ def run(ctx):
 
     # ---- sequences of 1..4 requests on one interface object (explicit frames)
     nseq = 700 if q else 6000
-    ext = list(range(13))
+    ext = list(range(NSYM))
     for i in range(nseq):
         kind = KINDS[i % 3]
         mr = rng.randrange(4)
@@ -466,6 +486,8 @@ def run(ctx):
         bridged = kind == 'rmcp' and rng.random() < 0.3
         reqs, hist = [], []
         queue0 = []
+        same_target = rng.random() < 0.6      # all requests of the history go through ONE Target object
+        rs_sa0, routing0 = None, None
         for j in range(nreq):
             cmd = rng.choice([1, 2, 0x33, 0x35, rng.randrange(256)])
             if cmd == 0x34:
@@ -477,15 +499,21 @@ def run(ctx):
                 routing = [[rng.choice([0x81, 0x20, rng.randrange(256)]), rng.choice([0x20, 0x82, 0x72, rng.randrange(256)]),
                             rng.randrange(16)] for _ in range(depth)]
                 routing[-1][2] = 0
+            if same_target:
+                if j == 0:
+                    rs_sa0, routing0 = rq[0], routing
+                rq[0], routing = rs_sa0, routing0
             h = request_header(kind, slave, (seq0 + j + 1) % 64, rq, routing)
+            p = bytes(rng.randrange(256) for _ in range(rng.choice([0, 1, 2, 5, 17, 40])))
             style = rng.random()
             if style < 0.25:
                 ev = [sym_event(h, 0)]                      # its matching reply arrives first
             elif style < 0.5:
-                pre = [sym_event(h, rng.choice([1, 2, 3, 4, 5, 6, 7])) for _ in range(rng.randrange(0, 5))]
+                pre = [sym_event(h, rng.choice([1, 2, 3, 4, 5, 6, 7, 13, 14, 15, 16, 17, 18, 19]), p)
+                       for _ in range(rng.randrange(0, 5))]
                 ev = pre + [sym_event(h, rng.choice([0, 0, 11]))]
             else:
-                ev = rand_events(rng, h, hist, rng.randrange(0, 7), ext)
+                ev = rand_events(rng, h, hist, rng.randrange(0, 7), ext, p)
             if bridged and routing and len(routing) > 1 and rng.random() < 0.7:
                 # the reply comes back through the bridges of the path, after acknowledgements
                 ws = [[x[0], 0, x[1], 0, h[4]] for x in routing[:-1]]
@@ -493,7 +521,6 @@ def run(ctx):
                 for w in reversed(ws):
                     f = spec_wrap_reply(w, 0, f)
                 ev = [('F', spec_wrap_reply(ws[0], 0, b''))] * rng.randrange(0, 3) + ev[:rng.randrange(0, 3)] + [('F', f)]
-            p = bytes(rng.randrange(256) for _ in range(rng.choice([0, 1, 2, 5, 17, 40])))
             reqs.append({'rq': rq, 'routing': routing, 'p': p.hex(),
                          'events': [[e[0]] + ([e[1].hex()] if e[0] == 'F' else []) for e in ev]})
             hist.append(h)
@@ -516,7 +543,17 @@ def run(ctx):
             rq_terms, exp, fseq, C.c_nat(unread)), ('sequence', inp))
         D.add(('seq', repr(inp)), True, 'sequence-%s-%dreq%s' % (kind, nreq, '-bridged' if bridged else ''))
         for key, msg in judge_sequence(inp, recs):
-            fail(key, msg, dict(inp, only_key=key))
+            if key in fails:
+                continue
+            full = dict(inp, only_key=key)
+            if len(reqs) > 1:
+                # the history is confirmed from a clean start and shrunk in fresh processes
+                extra = {k: v for k, v in full.items() if k != 'reqs'}
+                short = C.shrink_history('C04', 'sequence', reqs, key='reqs', extra=extra)
+                if short is not None:
+                    full = dict(extra, reqs=short)
+                    msg = (oracle_sequence(full) or msg) + ' [history of %d request(s)]' % len(short)
+            fail(key, msg, full)
 
     res.extra['t_seq_py'] = _t.time()
     # ---- evaluate the model in Coq
